@@ -472,7 +472,7 @@ def _campaign(ctx, entries, configs, trace_cfg, tag, again, window_ms, jobs, kno
         entry = [e for e in entries if e["prog"]["name"] == meta["program"]][0]
         fl = ctx.validate("PTG", "ExecTrace", trace_cfg, [ex], timeout=600)
         for f in fl:
-            ctx.violation("taskpool of generated PTG program %s %s under %s never terminates (re-confirmed with a 10x "
+            ctx.violation("taskpool of generated PTG program %s %s under %s never terminates or runs more bodies than its space has (re-confirmed with a 10x "
                           "no-progress window; %d programs/configurations hang in this run: %s): %s" % (
                               meta["program"], meta["tags"], meta["config"], len(names),
                               ", ".join(names[:12]), json.dumps(f.describe())[:600]),
